@@ -45,6 +45,13 @@ PROPS = {
         "probes": ["reinsert_same_slot", "iter_hash_multi", "dup_elements", "zero_sized", "entry_at_full_load", "tombstone_created", "rehash_in_place", "tombstone_reused"],
         "rule": "one evaluation = one simulated run of HashTable operations (find, find_mut, find_entry, entry, insert_unique, OccupiedEntry::remove then VacantEntry::insert, iter_hash(_mut), retain, extract_if, drain, clear, reserve, shrink, get_many_mut, clone) with caller-supplied hashes drawn from the hash plans (collisions in position bits, tag bits, both; duplicates of identical ids; zero-sized elements) against a multiset model; non-trivial/distinct as for C01",
     },
+    "C07": {
+        "level": "exploration",
+        "quick": [("A", 20000)],
+        "thorough": [("A", 500000)],
+        "probes": ["set_smaller_drives_larger", "set_larger_first", "sub_assign_retain_path", "sub_assign_remove_path", "tombstone_created", "small_table", "multi_group_table"],
+        "rule": "one evaluation = one simulated run over three HashSet slots built by independent histories under independently drawn hash plans (equal sets with different layouts, capacities, tombstones): union/intersection/difference/symmetric_difference iterators driven by next and fold with size_hint read at every step and clones taken mid-way, is_subset/is_superset/is_disjoint/== both ways, the four operators and the four assigning operators, insert/replace/take/get_or_insert/get_or_insert_with (incl. a lying constructor)/remove/entry, against BTreeSet algebra on ids and instance identity by serial; non-trivial/distinct as for C01",
+    },
     "C08": {
         "level": "exploration",
         "quick": [("A", 30000)],
@@ -122,7 +129,7 @@ NOT_APPLICABLE = {
     "C16": "Send/Sync markers, variance and borrow lifetimes are decided entirely by the type checker on generic obligations: there is no execution, schedule or fault for a deterministic simulator to drive or observe (DESIGN section 11)",
     "C17": "pure integer arithmetic whose stated quantifier is an exhaustive enumeration of capacities x sizes x alignments: no schedule, clock, fault or interleaving; seeded simulation would only be input generation under another name (DESIGN section 11)",
 }
-for _p in ["C07", "C18", "C19", "C20"]:
+for _p in ["C18", "C19", "C20"]:
     NOT_APPLICABLE.setdefault(_p, NA_TECH)
 
 _TB = "trusts rustc/std, the system allocator under SimAlloc, the reference model and oracles in hbsim; x86-64 only; sampling, not enumeration"
@@ -178,7 +185,7 @@ LEVEL_TEXT = {
     "C11": {
         "text": "seeded search over ordered pairs of slot states built by independent histories under independently seeded hash plans: clone/clone_from along all structural paths with clone/drop accounting by serial, == in both directions against model equality, independence under later mutation",
         "design_ref": "DESIGN.md section 9 C11",
-        "note": _TB + "; == is evaluated through the public operations PartialEq is specified by (len + get of every pair) because the simulator's value types deliberately do not implement PartialEq",
+        "note": _TB,
         "technique": "deterministic simulation (fault-free configuration): pairs of slots with per-slot hash plans vs reference model",
     },
     "C12": {
@@ -210,5 +217,11 @@ LEVEL_TEXT = {
         "design_ref": "DESIGN.md section 9 C06",
         "note": _TB,
         "technique": "deterministic simulation (fault-free configuration): caller-supplied hashes from simulator-owned plans vs multiset model",
+    },
+    "C07": {
+        "text": "seeded search over ordered pairs of sets realised by different construction histories and hash plans, all |A| vs |B| orderings (both strategy branches of union/intersection and of -= are probed): iterator outputs as multisets against BTreeSet algebra, size_hint bounds at every step, operator forms vs method forms, assigning forms with instance identity and drop accounting, and the single-set operations with their stated keep-old / store-new / refuse semantics",
+        "design_ref": "DESIGN.md section 9 C07",
+        "note": _TB,
+        "technique": "deterministic simulation (fault-free configuration, plus the lying-constructor fault F14): pairs of sets under per-slot hash plans vs mathematical sets",
     },
 }
